@@ -9,6 +9,11 @@ CHECKS = {
    note="trusted: the harness's YAML printer and the regexp that recognises yardl's error lines; 10 s / 4 GiB stand for 'promptly' / 'does not exhaust memory'",
    ref="DESIGN.md section 3 (C10)"),
 }
+CHECKS["C09"] = dict(
+   technique="mutation-based property testing: valid generated layouts with one injected rule violation at a generated position; oracle = CLI rejects and names a file of the offending package",
+   text="Exploration: each case is a generated valid layout (main package, imports, an import of an import, previous versions, several files) plus exactly one injected violation out of ~50 documented rules, nested inside 0-3 generated wrappers (containers, union cases, generic arguments) and placed in a generated package/file; the un-mutated control layout must be accepted, the mutated one must exit non-zero with an error naming a file of the package that contains the violation. Thousands of (rule, position) combinations per run.",
+   note="trusted: the rule table transcribed from docs/*/language.md and yardl's own messages; only 'rejected + file of the offending package named' is asserted, secondary errors are accepted",
+   ref="DESIGN.md section 3 (C09)")
 NOT_YET = {}
 
 props = [json.loads(l) for l in open("properties.jsonl")]
